@@ -6,7 +6,8 @@
 //!            B bracketed paste off, s enable_signals, r start from a raw-mode terminal
 //!   helper : `-` or `|`-joined parts: `C=<texts>` word completer, `V=<cp>@<v>;…` scripted validator
 //!            (first listed char contained in the text decides; v ∈ i n m v e), `Vb` bracket validator,
-//!            `H=<cp>@<text>;…` scripted hinter (cursor at end, last char = cp), `M` bracket highlighter
+//!            `H=<cp>@<text>;…` scripted hinter (cursor at end, last char = cp), `M` bracket highlighter,
+//!            `Ph=<k>` the hinter panics at its k-th call
 //!   binds  : `-` or `;`-joined `<key>[+<key>]@<cmd>` (see `parse_cmd`)
 //!   key    : hex bytes written to the terminal in one go
 //! observation: one token `line/pos/mode/hint/key/n/positive` per `Event::Any` callback, then `=>`,
@@ -36,6 +37,9 @@ pub struct ScriptHelper {
     pub hints: Vec<(char, String)>,
     pub bracket_hl: Option<MatchingBracketHighlighter>,
     pub validator_calls: Arc<Mutex<Vec<String>>>,
+    /// the hinter panics at its k-th call (helper part `Ph=<k>`)
+    pub hint_panic_at: Option<usize>,
+    pub hint_calls: std::sync::atomic::AtomicUsize,
 }
 
 impl Completer for ScriptHelper {
@@ -55,6 +59,10 @@ impl Completer for ScriptHelper {
 impl Hinter for ScriptHelper {
     type Hint = String;
     fn hint(&self, line: &str, pos: usize, _ctx: &Context<'_>) -> Option<String> {
+        let n = self.hint_calls.fetch_add(1, std::sync::atomic::Ordering::SeqCst) + 1;
+        if self.hint_panic_at == Some(n) {
+            panic!("scripted hinter panic");
+        }
         if pos < line.len() {
             return None;
         }
@@ -220,6 +228,8 @@ pub fn parse_helper(spec: &str, calls: Arc<Mutex<Vec<String>>>) -> Option<Option
         hints: vec![],
         bracket_hl: None,
         validator_calls: calls,
+        hint_panic_at: None,
+        hint_calls: std::sync::atomic::AtomicUsize::new(0),
     };
     for part in spec.split('|') {
         if let Some(r) = part.strip_prefix("C=") {
@@ -241,6 +251,12 @@ pub fn parse_helper(spec: &str, calls: Arc<Mutex<Vec<String>>>) -> Option<Option
                 let (c, t) = item.split_once('@')?;
                 h.hints.push((char::from_u32(c.parse().ok()?)?, dec_text(t)?));
             }
+        } else if let Some(r) = part.strip_prefix("Ph=") {
+            let k: usize = r.parse().ok()?;
+            if k == 0 {
+                return None;
+            }
+            h.hint_panic_at = Some(k);
         } else if part == "M" {
             h.bracket_hl = Some(MatchingBracketHighlighter::new());
         } else {
